@@ -127,9 +127,9 @@ def check_partition(spec, stream, assign, k):
                 if ci == c:
                     # defs.increment(container, datum) fills with weight 1; weighted data use fill directly
                     if w == 1.0:
-                        h = defs.increment(h, r)
+                        h = defs.increment(h, A.fresh(r))
                     else:
-                        h.fill(r, w)
+                        h.fill(A.fresh(r), w)
             parts.append(h)
         docs = [p.toJson() for p in parts]
 
